@@ -13,7 +13,8 @@ def miri_step(cfg, tier, seed, workdir, env):
     if tier != "thorough":
         return {"extra": {"miri": "not run (quick tier)"}}
     reqs = [l.rstrip("\n") for l in open(os.path.join(_V, "corpus", "C11.miri.txt")) if l.strip() and not l.startswith("#")]
-    e = dict(env, CARGO_TARGET_DIR=os.path.join(_V, "target", "miri"), MIRIFLAGS="-Zmiri-disable-isolation -Zmiri-tree-borrows")
+    e = dict(env, CARGO_TARGET_DIR=os.path.join(_V, "target", "miri"), MIRIFLAGS="-Zmiri-disable-isolation -Zmiri-tree-borrows",
+             VERIF_HANG_S="1200")      # the interpreter is 100x slower: the harness watchdog must not mistake it for a hang
     t0 = time.time()
     try:
         p = subprocess.run(["cargo", "+nightly", "miri", "run", "--offline", "-p", "rt", "--", "exec"], cwd=os.path.join(_V, "harness"),
@@ -28,7 +29,7 @@ def miri_step(cfg, tier, seed, workdir, env):
     fails = []
     if p.returncode != 0 or "Undefined Behavior" in p.stderr:
         i = min(len([x for x in got if x]), len(reqs) - 1)
-        fails.append(("C11-miri", reqs[i], "C11", "miri: " + " ".join(l.strip() for l in p.stderr.splitlines() if "Undefined Behavior" in l or "-->" in l)[:300], "abort"))
+        fails.append(("C11-miri", reqs[i], "C11", ("miri (exit %d): " % p.returncode) + (" ".join(l.strip() for l in p.stderr.splitlines() if "Undefined Behavior" in l or "-->" in l)[:300] or p.stderr.strip()[-200:]), "abort"))
     elif got != native:
         i = [a != b for a, b in zip(got, native)].index(True)
         fails.append(("C11-miri", reqs[i], "C11", "answer under miri differs from the native run", got[i]))
